@@ -567,6 +567,10 @@ def contexts(fields, upper, tier, seed):
     # parameters and locals (`f`, `other`, `state`, `source`, `builder`, `arg`): `method = other` must still call the user's function
     for ident in METHOD_IDENTS:
         ctx.append((f'method-named:{ident}', False, False, None, None, False, False, [ident] + [x for x in METHOD_IDENTS if x != ident]))
+    # fields named exactly like the parameters and locals of the generated methods, in two rotations, on every template (also the Debug
+    # presentation variants): a template that binds a field under its own name would shadow `f`, `builder`, `other`, ..
+    ctx.append(('names-generated-locals-a', False, False, ['f', 'builder', 'arg', 'other', 'state', 'source'], None, True))
+    ctx.append(('names-generated-locals-b', True, False, ['arg', 'other', 'state', 'source', 'f', 'builder'], None, True))
     # fields named like the items the type's own default expressions call (`src(3)` next to a field `src`): an expansion that binds
     # field values to locals named after the fields would capture them
     ctx.append(('names-of-expression-items', False, False, ['src', 'D', 'dflt'], None, True, False, None, True))
@@ -605,12 +609,12 @@ def gen(tier, seed):
                 continue
             if tag == 'raw-identifiers' and name.startswith('Debug:'):
                 continue      # default keys of raw identifiers are not defined by the property
-            if name.startswith('DebugNoDefaultKey:') and tag not in ('raw-identifiers', 'shadow'):
+            if name.startswith('DebugNoDefaultKey:') and tag not in ('raw-identifiers', 'shadow') and not tag.startswith('names-generated-locals'):
                 continue
             if tag.startswith('method-named:'):
                 if not name.startswith(METHOD_IDENT_USERS[tag.split(':')[1]]):
                     continue
-            elif tier == 'quick' and (ti + ci) % 2 == 1 and tag not in ('shadow', 'inherent-methods', 'raw-identifiers', 'names-of-expression-items'):
+            elif tier == 'quick' and (ti + ci) % 2 == 1 and tag not in ('shadow', 'inherent-methods', 'raw-identifiers', 'names-of-expression-items', 'names-generated-locals-a', 'names-generated-locals-b'):
                 continue
             model.TYPE_WRAP = make_wrap(shadow, glob, inherent)
             try:
